@@ -579,7 +579,6 @@ def trials_for(vi, history, op):
             bd2, bs2 = e2.dump(), e2.snapshot()
             o2, l2 = e2.run(op, k, kind)
             res.append(dict(k=k, kind=kind, out=o2, log=l2, env=e2, before=bd2, snap=bs2, n=n, clean_out=out))
-    gc.collect()     # interrupted iterations die while their connection is still open (no noise at exit)
     return res
 
 
@@ -849,6 +848,7 @@ def run(ctx):
                                     % (op[0], t['out'], '' if t['k'] is None else ' (error injected at statement %d of %d)' % (t['k'], t['n']),
                                        '; '.join(probs[:4])), desc)
                 ctx.count('non-atomic:' + key)
+    gc.collect()     # interrupted iterations die while their connections are still open (no noise at exit)
     outs = ctx.model(lines)
     if outs is None:
         return
